@@ -219,10 +219,11 @@ static void do_run(char **w, int n)
 		long long esize = archive_entry_size_is_set(e) ? archive_entry_size(e) : -1;
 		printf("|E %s %016llx", vh_st(hr), (unsigned long long)meta_hash(e));
 		struct dense d; d_init(&d); int bst = ARCHIVE_OK; int over = 0, ord = 0, beyond = 0;
-		if (c[0] == 'A' || c[0] == 'a' || c[0] == 'P') {
+		if (c[0] == 'A' || c[0] == 'a' || c[0] == 'P' || c[0] == 'R') {
 			long long want = c[0] == 'P' ? atoll(c + 1) : -1; int t = 0;
+			size_t fixed = c[0] == 'R' ? (size_t)atoll(c + 1) : 0; if (fixed > sizeof rb) fixed = sizeof rb;
 			for (;;) {
-				size_t ask = c[0] == 'A' ? sizeof rb : (size_t)((t++ % 3 == 0) ? 7 : (t % 3 == 1) ? 1000 : 13);
+				size_t ask = c[0] == 'A' ? sizeof rb : c[0] == 'R' ? (fixed ? fixed : 1) : (size_t)((t++ % 3 == 0) ? 7 : (t % 3 == 1) ? 1000 : 13);
 				if (want >= 0) { if (d.len >= want) break; if ((long long)ask > want - d.len) ask = (size_t)(want - d.len); }
 				la_ssize_t k = archive_read_data(a, rb, ask);
 				if (k < 0) { bst = (int)k; break; }
@@ -237,7 +238,7 @@ static void do_run(char **w, int n)
 			for (;;) {
 				const void *p; size_t sz; la_int64_t off;
 				int k = archive_read_data_block(a, &p, &sz, &off);
-				if (k == ARCHIVE_EOF) { bst = ARCHIVE_EOF; break; }
+				if (k == ARCHIVE_EOF) { bst = ARCHIVE_EOF; if (esize >= 0 && off == esize && off > expect) d_zero(&d, off - expect); break; }
 				if (k < ARCHIVE_OK && k != ARCHIVE_WARN) { bst = k; break; }
 				if (off < expect) { ord = 1; bst = 78; break; }
 				if (esize >= 0 && off + (long long)sz > esize) beyond = 1;
@@ -247,14 +248,14 @@ static void do_run(char **w, int n)
 		} else if (c[0] == 'S') {
 			bst = archive_read_data_skip(a);
 		} else bst = 79; /* nothing */
-		if (c[0] == 'A' || c[0] == 'a' || c[0] == 'B')
+		if (c[0] == 'A' || c[0] == 'a' || c[0] == 'B' || c[0] == 'R')
 			printf(" %lld %016llx %016llx %016llx", d.len, (unsigned long long)d.h, (unsigned long long)d.h10, (unsigned long long)d.h1000);
 		else if (c[0] == 'P')
 			printf(" %lld %016llx - -", d.len, (unsigned long long)d.h);
 		else printf(" - - - -");
 		printf(" %s", bst == 77 ? "part" : bst == 78 ? "disorder" : bst == 79 ? "none" : bst == 80 ? "cap" : vh_st(bst));
 		printf(" %s%s%s%s", over ? "OVER" : "", ord ? "ORD" : "", beyond ? "BEYOND" : "",
-		    (esize >= 0 && (c[0] == 'A' || c[0] == 'a') && d.len > esize) ? "LONG" : "");
+		    (esize >= 0 && (c[0] == 'A' || c[0] == 'a' || c[0] == 'R') && d.len > esize) ? "LONG" : "");
 		if (!over && !ord && !beyond) printf("-");
 		nent++;
 		if (bst == ARCHIVE_FATAL) { final = ARCHIVE_FATAL; break; }   /* stop at the first fatal data error */
@@ -266,6 +267,75 @@ static void do_run(char **w, int n)
 	if (fd >= 0) close(fd);
 	if (feeder > 0) { int st; waitpid(feeder, &st, 0); }
 	free(buf);
+}
+
+
+/* ---- archive generator: the real writers, deterministic content ---- */
+struct sink { unsigned char *p; size_t len, cap; };
+static ssize_t sink_write(struct archive *a, void *d, const void *b, size_t n)
+{
+	(void)a; struct sink *s = d;
+	if (s->len + n > s->cap) { s->cap = (s->len + n) * 2 + 65536; s->p = realloc(s->p, s->cap); }
+	memcpy(s->p + s->len, b, n); s->len += n; return (ssize_t)n;
+}
+
+static void do_make(char **w, int n)
+{
+	const char *fmt = kv(w, n, "fmt"), *filt = kv(w, n, "filt");
+	uint64_t rng = strtoull(kv(w, n, "seed"), NULL, 10) * 0x9E3779B97F4A7C15ULL + 1;
+	int cnt = atoi(kv(w, n, "n")); if (cnt <= 0) cnt = 5;
+	struct sink sk = {0};
+	struct archive *a = archive_write_new();
+	int r = archive_write_set_format_by_name(a, fmt);
+	if (r == ARCHIVE_OK && strcmp(filt, "-") != 0 && strcmp(filt, "none") != 0) r = archive_write_add_filter_by_name(a, filt);
+	if (r != ARCHIVE_OK) { printf("bad-op"); archive_write_free(a); return; }
+	archive_write_set_bytes_per_block(a, 10240);
+	archive_write_set_bytes_in_last_block(a, 1);
+	r = archive_write_open(a, &sk, NULL, sink_write, NULL);
+	static const long sizes[] = {0, 1, 10, 511, 512, 513, 1000, 4095, 5000, 10240, 70001};
+	int tarlike = strstr(fmt, "tar") || strstr(fmt, "pax") || strstr(fmt, "ustar") || strstr(fmt, "cpio") || strstr(fmt, "newc") || strstr(fmt, "odc");
+	int longnames = strstr(fmt, "pax") || strstr(fmt, "gnutar") || strstr(fmt, "zip") || strstr(fmt, "7zip") || strstr(fmt, "xar") || strstr(fmt, "newc");
+	int isar = strncmp(fmt, "ar", 2) == 0, israw = strcmp(fmt, "raw") == 0;
+	char first[64] = "";
+	for (int i = 0; i < cnt && r >= ARCHIVE_WARN; i++) {
+		struct archive_entry *e = archive_entry_new();
+		char name[700]; int nl;
+		unsigned kind = (unsigned)(xr(&rng) % 10);
+		if (longnames && xr(&rng) % 4 == 0) {
+			static const int lens[] = {99, 100, 101, 154, 155, 156, 255, 256, 300};
+			nl = lens[xr(&rng) % 9];
+			int k = snprintf(name, sizeof name, "d%d/", i);
+			while (k < nl) { name[k] = (k % 50 == 49) ? '/' : (char)('a' + (k * 7 + i) % 26); k++; }
+			if (name[k-1] == '/') name[k-1] = 'z';
+			name[k] = 0;
+		} else snprintf(name, sizeof name, isar ? "f%d.o" : "dir%d/file_%d.dat", isar ? i : i % 3, i);
+		long sz = sizes[xr(&rng) % (sizeof sizes / sizeof sizes[0])];
+		archive_entry_set_pathname(e, name);
+		archive_entry_set_mtime(e, 1000000000 + i * 3600, 0);
+		archive_entry_set_uid(e, 1000 + i % 3); archive_entry_set_gid(e, 100);
+		archive_entry_set_uname(e, "user"); archive_entry_set_gname(e, "grp");
+		if (israw && i > 0) { archive_entry_free(e); break; }
+		if (!isar && !israw && kind == 0) { archive_entry_set_filetype(e, AE_IFDIR); archive_entry_set_perm(e, 0755); sz = 0; }
+		else if (!isar && !israw && kind == 1) { archive_entry_set_filetype(e, AE_IFLNK); archive_entry_set_perm(e, 0777); archive_entry_set_symlink(e, "target/of/link"); sz = 0; }
+		else if (tarlike && kind == 2 && first[0]) { archive_entry_set_filetype(e, AE_IFREG); archive_entry_set_perm(e, 0644); archive_entry_set_hardlink(e, first); sz = 0; }
+		else { archive_entry_set_filetype(e, AE_IFREG); archive_entry_set_perm(e, 0644 | (i % 2 ? 0111 : 0)); if (!first[0] && strlen(name) < 60) snprintf(first, sizeof first, "%s", name); }
+		archive_entry_set_size(e, sz);
+		int sparse = (strstr(fmt, "pax") || strstr(fmt, "gnutar")) && sz >= 4095 && xr(&rng) % 2 == 0;
+		if (sparse) { archive_entry_sparse_add_entry(e, 512, 1024); archive_entry_sparse_add_entry(e, sz - 600, 100); }
+		r = archive_write_header(a, e);
+		if (r >= ARCHIVE_WARN && sz > 0) {
+			unsigned char *body = malloc((size_t)sz); uint64_t br = rng ^ (uint64_t)i;
+			for (long k = 0; k < sz; k++) body[k] = (k / 64 % 3 == 0) ? (unsigned char)xr(&br) : (unsigned char)('A' + k % 23);
+			if (sparse) { for (long k = 0; k < sz; k++) if (!((k >= 512 && k < 1536) || (k >= sz - 600 && k < sz - 500))) body[k] = 0; }
+			long off = 0; while (off < sz) { long c = 1 + (long)(xr(&rng) % 9000); if (c > sz - off) c = sz - off; if (archive_write_data(a, body + off, (size_t)c) < 0) break; off += c; }
+			free(body);
+		}
+		if (r == ARCHIVE_FAILED) r = ARCHIVE_OK;   /* entry refused by the format: go on */
+		archive_entry_free(e);
+	}
+	int cr = archive_write_close(a); archive_write_free(a);
+	free(arc); arc = sk.p ? sk.p : malloc(1); arclen = sk.len;
+	printf("made %zu %s", arclen, vh_st(cr));
 }
 
 static int count_fds(void)
@@ -293,6 +363,7 @@ static void e_op(char *line)
 	}
 	if (strncmp(line, "hex ", 4) == 0) { free(arc); arc = vh_unhex(line + 4, &arclen); printf("ok %zu\n", arclen); return; }
 	n = vh_split(line, w, 16);
+	if (n >= 1 && strcmp(w[0], "make") == 0) { do_make(w + 1, n - 1); printf("\n"); return; }
 	if (n >= 1 && strcmp(w[0], "run") == 0) { int before = count_fds(); do_run(w + 1, n - 1); int after = count_fds(); printf(" fds=%d\n", after - before); return; }
 	printf("bad-op\n");
 }
